@@ -87,6 +87,15 @@ pub const POOL: &[(&str, &str, &str)] = &[
     // files in other directories whose own relative imports must be resolved against *their* directory
     ("F2I", "/p/d/frag2.graphql", "#import Frag4 from \"./e/frag4.graphql\"\nfragment Frag2 on T { y ...Frag4 }\n"),
     ("F4", "/p/d/e/frag4.graphql", "#import Extra from \"../../frag1.graphql\"\nfragment Frag4 on T { q }\n"),
+    // two files in different directories that use the identical import string for different targets
+    ("R7", "/p/root7.graphql", "#import * from \"./a/one.graphql\"\n#import * from \"./b/two.graphql\"\nquery R7 { ...One ...Two }\n"),
+    ("G1", "/p/a/one.graphql", "#import FA from \"./fragments.graphql\"\nfragment One on T { x ...FA }\n"),
+    ("G2", "/p/b/two.graphql", "#import FB from \"./fragments.graphql\"\nfragment Two on T { y ...FB }\n"),
+    ("GA", "/p/a/fragments.graphql", "fragment FA on T { a }\n"),
+    ("GB", "/p/b/fragments.graphql", "fragment FB on T { b }\n"),
+    // root names that are legal but not in normal form
+    ("R5", "/p/x/../op5.graphql", "#import Frag1 from \"./frag1.graphql\"\nquery R5 { five ...Frag1 }\n"),
+    ("R6", "./rel6.graphql", "query R6 { six }\n"),
     ("R4", "/p/sub/deep/q.graphql", "#import Frag2 from \"../../d/frag2.graphql\"\nquery Q4 { ...Frag2 }\n"),
     ("SELF", "/p/self.graphql", "#import * from \"./self.graphql\"\n#import Frag2 from \"./d/../d/frag2.graphql\"\nquery Self { ...SelfF ...Frag2 }\nfragment SelfF on T { s }\n"),
 ];
@@ -240,6 +249,8 @@ fn run_history_here(ops: &[Op]) -> HistoryResult {
     let mut config: Option<&'static str> = None;
     let mut emits = 0;
     let mut nonlive = 0;
+    // some call has stored a result (so that "read the last result" is a legal next call)
+    let mut result_set = false;
     let hist = || ops.iter().map(|o| op_json(o).to_string()).collect::<Vec<_>>().join(" ");
     let resolve = |r: &TRef, issued: &Vec<usize>| -> usize {
         match r {
@@ -267,6 +278,9 @@ fn run_history_here(ops: &[Op]) -> HistoryResult {
             Op::Initiate(s) => {
                 let (path, src) = pool(s);
                 let id = abi_initiate(path, src);
+                if id == 0 {
+                    result_set = true;
+                }
                 let ok = source_ok(src);
                 if ok {
                     if id == 0 {
@@ -290,6 +304,7 @@ fn run_history_here(ops: &[Op]) -> HistoryResult {
             Op::Required(r) => {
                 let id = resolve(r, &issued);
                 let ok = loader_shim::get_required_files(id);
+                result_set = true;
                 let text = read_result();
                 match live.get(&id) {
                     None => {
@@ -315,6 +330,9 @@ fn run_history_here(ops: &[Op]) -> HistoryResult {
                 let id = resolve(r, &issued);
                 let (path, src) = pool(s);
                 let ok = abi_load(id, path, src);
+                if !ok {
+                    result_set = true;
+                }
                 match live.get_mut(&id) {
                     None => {
                         nonlive += 1;
@@ -338,6 +356,7 @@ fn run_history_here(ops: &[Op]) -> HistoryResult {
             Op::Emit(r) => {
                 let id = resolve(r, &issued);
                 let ok = loader_shim::emit_js(id);
+                result_set = true;
                 let text = read_result();
                 match live.get(&id) {
                     None => {
@@ -374,8 +393,16 @@ fn run_history_here(ops: &[Op]) -> HistoryResult {
                 if !live.contains_key(&id) {
                     nonlive += 1;
                 }
+                // "read the last result" around a free (of any id): freeing must not take another call's answer away
+                let before = if result_set { Some(read_result()) } else { None };
                 loader_shim::free_task(id);
                 live.remove(&id);
+                if let Some(b) = before {
+                    let after = read_result();
+                    if after != b {
+                        out.push(mk("C19|model|free-changes-the-last-result".into(), format!("step {i} {opname}: the last result read {:?} before free_task({id}) and {:?} after it, in {}", clip(&b, 80), clip(&after, 80), hist())));
+                    }
+                }
             }
         }
         if let Some(v) = heapmon::first_violation() {
@@ -417,6 +444,7 @@ pub fn alphabet(with_missing: bool) -> Vec<Op> {
         Op::Initiate("R1"),
         Op::Initiate("R2"),
         Op::Initiate("R3"),
+        Op::Initiate("R5"),
         Op::Initiate("BAD"),
         Op::Required(t0),
         Op::Required(t1),
@@ -445,8 +473,8 @@ pub fn alphabet(with_missing: bool) -> Vec<Op> {
 fn random_history(rng: &mut Rng, len: usize, with_missing: bool) -> Vec<Op> {
     let mut ops = vec![];
     let mut n_issued = 0usize;
-    let roots: &[&'static str] = if with_missing { &["R1", "R2", "R3", "R4", "BAD", "SELF", "MISS"] } else { &["R1", "R2", "R3", "R4", "BAD", "SELF"] };
-    let files: &[&'static str] = &["F1", "F2", "F2I", "F4", "F1ALT", "BADF", "R3", "SELF"];
+    let roots: &[&'static str] = if with_missing { &["R1", "R2", "R3", "R4", "R5", "R6", "R7", "BAD", "SELF", "MISS"] } else { &["R1", "R2", "R3", "R4", "R5", "R6", "R7", "BAD", "SELF"] };
+    let files: &[&'static str] = &["F1", "F2", "F2I", "F4", "F1ALT", "BADF", "R3", "SELF", "G1", "G2", "GA", "GB"];
     for _ in 0..len {
         let tref = |rng: &mut Rng, n: usize| -> TRef {
             if n == 0 || rng.chance(1, 8) {
@@ -573,6 +601,42 @@ pub fn run_mode(ctx: &Ctx, rep: &mut Report, mode: &str) {
         rep.add("exhaustive_histories", hist_count);
         rep.exhaustive = Some(true);
         rep.note(&format!("bounded-exhaustive: every history of length <= {maxlen} over a {}-symbol alphabet (<= 2 tracked tasks + never-issued/zero ids)", alpha.len()));
+    }
+    // scripted scenarios that neither the short exhaustive histories nor the random ones are sure to reach: every order
+    // of supplying the files of the two-directories project, a question after each step (repeated: the loader's own
+    // file table is a hash map, so its visiting order changes from instance to instance)
+    if mode != "miri" {
+        let t0 = TRef::Issued(0);
+        let names = ["G1", "G2", "GA", "GB"];
+        let mut perms: Vec<Vec<&'static str>> = vec![];
+        for a in 0..4 {
+            for b in 0..4 {
+                for c in 0..4 {
+                    for d in 0..4 {
+                        let p = [a, b, c, d];
+                        let mut q = p.to_vec();
+                        q.sort();
+                        q.dedup();
+                        if q.len() == 4 {
+                            perms.push(p.iter().map(|i| names[*i]).collect());
+                        }
+                    }
+                }
+            }
+        }
+        for rep_n in 0..if mode == "native" { 6 } else { 1 } {
+            for p in &perms {
+                let mut ops = vec![Op::Initiate("R7"), Op::Required(t0)];
+                for f in p {
+                    ops.push(Op::Load(t0, f));
+                    ops.push(Op::Required(t0));
+                }
+                ops.push(Op::Emit(t0));
+                ops.push(Op::Free(t0));
+                run_one(&ops, rep, rep_n == 0);
+                rep.count("scripted_scenarios|two-directories-same-import-string");
+            }
+        }
     }
     let (q, t) = match mode {
         "native" => (6_000, 400_000),
